@@ -3970,7 +3970,7 @@ class Wallet(object):
             if isinstance(fee, str):
                 priority = fee
             transaction.fee_per_kb = srv.estimatefee(blocks=n_blocks, priority=priority)
-            if not input_arr:
+            if not input_arr or isinstance(fee, str):
                 fee_estimate = int(transaction.estimate_size(number_of_change_outputs=number_of_change_outputs) /
                                    1000.0 * transaction.fee_per_kb)
             else:
@@ -4094,6 +4094,8 @@ class Wallet(object):
         if fee is False:
             transaction.change = 0
             transaction.fee = int(amount_total_input - amount_total_output)
+            # The fee is what the given inputs leave over: check its real rate against the network limits below
+            transaction.fee_per_kb = None
         else:
             transaction.change = int(amount_total_input - (amount_total_output + transaction.fee))
         if transaction.change < 0 or transaction.fee < 0:
